@@ -15,4 +15,4 @@ if [ $need = 1 ]; then
   mkdir -p "$VERIF/bin"
   (cd "$VERIF/checker" && go build -o "$BIN.$$" ./cmd/gvcheck && mv "$BIN.$$" "$BIN") || { echo "VIOLATION property=$1 replay=$VERIF/replay/build-failed"; exit 1; }
 fi
-exec "$BIN" -prop "$1" -tier "${2:-${VERIF_TIER:-quick}}" -repo "$REPO" -verif "$VERIF"
+exec "$BIN" -prop "$1" -tier "${2:-${VERIF_TIER:-quick}}" -repo "$REPO" -verif "$VERIF" ${VERIF_OUT:+-out "$VERIF_OUT"}
